@@ -209,7 +209,7 @@ def str_enum_member(value: str):
 
 
 SUBCLASS_KINDS = ['str-sub', 'str-enum', 'bytes-sub', 'bytearray-sub', 'list-sub', 'tuple-sub', 'memoryview-ro', 'frozenbitarray',
-                  'memoryview-strided', 'memoryview-reversed']
+                  'memoryview-strided', 'memoryview-reversed', 'frozenbitarray-little', 'bitarray-little']
 
 
 class OperandFailure(Exception):
@@ -312,6 +312,10 @@ def build_operand(spec, receiver=None):
         return TupleSub(c == '1' for c in bits)
     if k == 'frozenbitarray':
         return bitarray.frozenbitarray(bits)
+    if k == 'frozenbitarray-little':      # the bit-endianness of a bitarray says how ITS buffer is laid out, not which bits it holds
+        return bitarray.frozenbitarray(bits, endian='little')
+    if k == 'bitarray-little':
+        return bitarray.bitarray(bits, endian='little')
     if k == 'failing-iter':
         return FailingIter(bits)
     if k == 'truthy':               # arbitrary objects: an iterable is promoted item by item through bool()
